@@ -19,6 +19,7 @@ def run(rep, tier):
     tol.r_tol_index(rep, f)
     tol.r_accept_one(rep, f)
     tol.r_grade_solvers(rep, f)
+    tol.r_grade_norm_helpers(rep, f)
     for m in aff.EXPLICIT:
         if not m["est"]:
             continue
